@@ -288,9 +288,9 @@ def gen_history(rng, role=None, persist=None, nops=None, restart=True, inbound=T
                           extra_hdr=[(43, "Y"), (122, ts(h.now - 10**9))])
                 else:
                     h.inb("D", app_fields(rng, "D", h.now, complete=False))
-            elif not (role == "A" and persist == "mem"):
-                # (an acceptor recovers its numbers in handle_logon; with a MemoryPersister that
-                #  already holds a control record the recovered values are F30 garbage)
+            else:
+                # (an acceptor recovers its numbers in handle_logon; since /repo 760121b a MemoryPersister
+                #  returns its last control record, so this is part of the tie for every persister)
                 h.logon_in()
         elif r < 0.95 and ticks:
             if rng.random() < 0.7:
